@@ -262,12 +262,20 @@ def run(ctx, repo):
             al = st.value
     if al is None:
         raise AnalysisError('anchor vanished: action_letter')
-    if isinstance(al, ast.Call) and call_name(al) == 'dict':
+    table = None
+    if isinstance(al, ast.Call) and call_name(al) == 'dict' and not al.args:
         table = {k.arg: k.value.value for k in al.keywords if isinstance(k.value, ast.Constant)}
     elif isinstance(al, ast.Dict):
         table = {k.value: v.value for k, v in zip(al.keys, al.values) if isinstance(k, ast.Constant) and isinstance(v, ast.Constant)}
-    else:
-        raise AnalysisError('action_letter is not a dict literal')
+    if not table:
+        # not a literal of constants: the value of the expression with the module's folded constants (T-FOLD)
+        from ..fold import Folder
+        try:
+            table = Folder().expr(al, dict(repo.folded(HJ)[0]))
+        except Exception as e:
+            raise AnalysisError('action_letter is not a dict literal and does not fold (%s)' % e)
+        if not isinstance(table, dict):
+            raise AnalysisError('action_letter does not fold to a dict')
     written = {}
     for m in TRIALS:
         f = Jm.get(m)
